@@ -1,3 +1,3 @@
 #!/bin/sh
 # replays this counterexample against the real build
-cd /tmp/seedonly_C18c_8812 && VERIF_SCRIPT=/verif/replays/C18/VHarnessSendMixed3_7e686360_0/script.json VERIF_RAW_SALT=0 GOFLAGS=-mod=mod GOPROXY=off go test -vet=off -count=1 -overlay /verif/replays/C18/VHarnessSendMixed3_7e686360_0/overlay.json -run ^TestVerifReplay_VHarnessSendMixed3$ -v ./wallet
+cd /tmp/seedrepo_C18c && VERIF_SCRIPT=/verif/replays/C18/VHarnessSendMixed3_7e686360_0/script.json VERIF_RAW_SALT=0 GOFLAGS=-mod=mod GOPROXY=off go test -vet=off -count=1 -overlay /verif/replays/C18/VHarnessSendMixed3_7e686360_0/overlay.json -run ^TestVerifReplay_VHarnessSendMixed3$ -v ./wallet
